@@ -742,3 +742,11 @@ def run(repo: Repo, rep: Report, tier: str) -> None:
     from .c13 import parser_fold_rule
 
     parser_fold_rule(repo, rep, "C04.R19")
+    from .c07 import generic_write_array_rule
+
+    # arrays of aligned structures: each element is padded relative to the real stream position
+    generic_write_array_rule(repo, rep, "C04.R20")
+    from .c05 import text_array_fold_rule
+
+    # a char / char[n] member occupies one byte per character whatever the character: the declared size is what is written
+    text_array_fold_rule(repo, rep, "C04.R21")
